@@ -196,6 +196,8 @@ def corrupt_bytes(rng, text):
         return text
     k = rng.random()
     for _ in range(rng.choice([1, 1, 2, 5])):
+        if not b:
+            break                      # everything was deleted
         i = rng.randrange(len(b))
         if k < 0.3:
             b[i] = rng.randrange(256)
